@@ -58,7 +58,7 @@ theorem joint_attributes (ws zs : List ℚ) (idx : List Nat) (h : ws.length = zs
       (idx.map fun i => zs.getD i 0)[k]? = some (zs.getD row 0) := by
   refine ⟨idx[k], hidx _ (List.getElem_mem hk), ?_, ?_⟩ <;> simp [hk]
 
-theorem glue_pinned : Gen.pinRandomProbe = "36fdb833175d3fab" ∧ Gen.pinRandomIter = "0df76cfcd2e3ce09" := by decide
+theorem glue_pinned : Gen.pinRandomProbe = "0163df6a58e1fbdd" ∧ Gen.pinRandomIter = "68b6757a4ca11947" := by decide
 
 /-! non-vacuity -/
 example : randomSizes 10 4 11 0 = [4, 4, 2] := by decide
